@@ -19,7 +19,7 @@ functions calling fuelled functions take the fuel and pass it on.
 import hashlib, os, re
 
 WANTED = ["rewrite-export", "symbol-append", "symbol-drop", "to-id", "from-id", "id-filter", "%resolve-import"]
-NICE = {"rewrite-export": "rewrite_export", "symbol-append": "symbol_append", "symbol-drop": "symbol_drop", "to-id": "to_id", "from-id": "from_id",
+NICE = {"check": "ce_check", "expand": "ce_expand", "rewrite-export": "rewrite_export", "symbol-append": "symbol_append", "symbol-drop": "symbol_drop", "to-id": "to_id", "from-id": "from_id",
         "id-filter": "id_filter", "%resolve-import": "resolve_import"}
 
 # scheme primitive -> (Gallina name in C14/Sx.v, arity)
@@ -35,7 +35,7 @@ PRIMS = {
     "length": ("p_length", 1), "identifier->symbol": ("p_identifier_to_symbol", 1),
     "string-append": ("p_string_append", 2), "string-length": ("p_string_length", 1), "string=?": ("p_string_eq", 2),
 }
-HOFS = {"map": "p_map", "find": "p_find", "filter": "p_filter"}
+HOFS = {"map": "p_map", "find": "p_find", "filter": "p_filter", "every": "p_every", "any": "p_any"}
 # look-ups in the module table: modelled by hand in C14/World.v, take the table W first
 WORLD = {"find-module": ("w_find_module", 1), "module-exports": ("w_module_exports", 1), "%module-exports": ("w_pmodule_exports", 1)}
 
@@ -167,7 +167,9 @@ def quote_sx(d):
 
 
 class Tr:
-    def __init__(self, defs):
+    def __init__(self, defs, globals_=(), srcfile="lib/meta-7.scm"):
+        self.globals = tuple(globals_)   # free variables of the source that become Section variables of type sx
+        self.srcfile = srcfile
         self.defs = defs            # name -> (params, body, lines)
         self.n = 0
         self.funparams = {}         # fname -> set of indices of function parameters
@@ -446,13 +448,13 @@ class Tr:
 
     def define(self, f):
         ps, body, lines = self.defs[f]
-        env = {}
+        env = {g: "val" for g in self.globals}
         for i, p in enumerate(ps):
             env[p] = "fun" if i in self.funparams[f] else "val"
         params = " ".join("(%s : %s)" % (mangle(p), "sx -> res sx" if i in self.funparams[f] else "sx") for i, p in enumerate(ps))
         term = self.body(body, env)
         name = NICE.get(f, mangle(f))
-        hdr = "(** lib/meta-7.scm:%d-%d  (define (%s %s) ...) *)\n" % (lines[0], lines[1], f, " ".join(ps))
+        hdr = "(** %s:%d-%d  (define (%s %s) ...) *)\n" % (self.srcfile, lines[0], lines[1], f, " ".join(ps))
         if f in self.calls[f]:
             return hdr + "Fixpoint %s (fuel0 : nat) (W : sx) %s {struct fuel0} : res sx :=\n match fuel0 with O => Err OutOfFuel | S fuel =>\n %s\n end.\n" % (name, params, term)
         if f in self.fuelled:
@@ -533,6 +535,103 @@ def translate(text):
     for f in tr.order():
         out.append(tr.define(f))
     return "\n".join(out)
+
+
+def _balanced_form(text, start):
+    """the text of the form starting at text[start] == '(' (skips strings and ; comments)"""
+    depth, i, n = 0, start, len(text)
+    while i < n:
+        c = text[i]
+        if c == '"':
+            i += 1
+            while i < n and text[i] != '"':
+                i += 2 if text[i] == "\\" else 1
+        elif c == ";":
+            while i < n and text[i] != "\n":
+                i += 1
+        elif c == "(":
+            depth += 1
+        elif c == ")":
+            depth -= 1
+            if depth == 0:
+                return text[start:i + 1]
+        i += 1
+    raise Unsupported("unbalanced form")
+
+
+def _subst(e, pat, rep):
+    if e == pat:
+        return rep(e) if callable(rep) else rep
+    if isinstance(e, list):
+        return [_subst(x, pat, rep) for x in e]
+    return e
+
+
+def translate_cond_expand(text):
+    """lib/init-7.scm (define-syntax cond-expand (er-macro-transformer (lambda (expr rename compare) (define (check x) ...) (let expand ((ls (cdr expr))) ...)))):
+    the feature-requirement evaluator [check] and the clause selection [expand] as Gallina.  Two source idioms are rewritten after
+    being matched EXACTLY: (eval `(find-module ',(cadr x)) (%meta-env)) is the module-table look-up (find-module (cadr x)) of C14/World.v,
+    and `(,(rename 'begin) ,@(cdar ls)) is (cons 'begin (cdar ls)) (the renamed begin is written as the symbol begin).  *features* becomes a
+    Section variable."""
+    at = text.find("(define-syntax cond-expand")
+    if at < 0:
+        raise Unsupported("(define-syntax cond-expand not found in lib/init-7.scm")
+    line0 = text.count("\n", 0, at) + 1
+    src = _balanced_form(text, at)
+    forms = read_all(src)
+    f = forms[0][2]
+    S = Sym
+    try:
+        assert f[0] == "define-syntax" and f[1] == "cond-expand" and len(f) == 3
+        er = f[2]
+        assert er[0] == "er-macro-transformer" and len(er) == 2
+        lam = er[1]
+        assert lam[0] == "lambda" and lam[1] == [S("expr"), S("rename"), S("compare")] and len(lam) == 4
+        dchk, loop = lam[2], lam[3]
+        assert dchk[0] == "define" and dchk[1] == [S("check"), S("x")] and len(dchk) == 3
+        assert loop[0] == "let" and loop[1] == "expand" and loop[2] == [[S("ls"), [S("cdr"), S("expr")]]] and len(loop) == 4
+    except (AssertionError, IndexError, TypeError):
+        raise Unsupported("cond-expand in lib/init-7.scm no longer has the shape (er-macro-transformer (lambda (expr rename compare) (define (check x) ..) (let expand ((ls (cdr expr))) ..)))")
+    lib_idiom = [S("eval"), [S("quasiquote"), [S("find-module"), [S("quote"), [S("unquote"), [S("cadr"), S("x")]]]]], [S("%meta-env")]]
+    begin_idiom = [S("quasiquote"), [[S("unquote"), [S("rename"), [S("quote"), S("begin")]]], [S("unquote-splicing"), [S("cdar"), S("ls")]]]]
+    hits = {"lib": 0, "begin": 0}
+
+    def r_lib(_):
+        hits["lib"] += 1
+        return [S("find-module"), [S("cadr"), S("x")]]
+
+    def r_begin(_):
+        hits["begin"] += 1
+        return [S("cons"), [S("quote"), S("begin")], [S("cdar"), S("ls")]]
+    chk = _subst(dchk[2], lib_idiom, r_lib)
+    exp = _subst(loop[3], begin_idiom, r_begin)
+    if hits["lib"] != 1 or hits["begin"] < 1:
+        raise Unsupported("cond-expand: the (library ...) look-up or the `(,(rename 'begin) ,@(cdar ls)) result is no longer written as expected")
+    for e in list(_walk_all(chk)) + list(_walk_all(exp)):
+        if isinstance(e, Sym) and e in ("quasiquote", "unquote", "unquote-splicing", "eval", "rename", "compare", "expr"):
+            raise Unsupported("cond-expand: %s outside the two known idioms" % e)
+    l0 = line0 + forms[0][0] - 1
+    defs = {"check": ([S("x")], [chk], (l0, l0 + src.count("\n"))), "expand": ([S("ls")], [exp], (l0, l0 + src.count("\n")))}
+    tr = Tr(defs, globals_=["*features*"], srcfile="lib/init-7.scm")
+    out = ["(** GENERATED by gen/c14_import.py from lib/init-7.scm cond-expand (sha256 of the form %s) - do not edit. *)" % hashlib.sha256(src.encode()).hexdigest()[:16],
+           "From ChibiV Require Import C14.Sx C14.World.", "Local Open Scope string_scope.", "", "Section CondExpand.",
+           "(** the value of *features* *)", "Variable %s : sx." % mangle("*features*"), ""]
+    for fn in tr.order():
+        out.append(tr.define(fn))
+    out.append("End CondExpand.")
+    return "\n".join(out)
+
+
+def regen_cond_expand(ctx, repo=None):
+    from vlib import build as B
+    path = os.path.join(repo or B.REPO, "lib", "init-7.scm")
+    try:
+        text = translate_cond_expand(open(path).read())
+    except Unsupported as e:
+        ctx.broken("gen:C14_CondExpand", "cond-expand of lib/init-7.scm left the translator's subset: %s" % e)
+        return False
+    ctx.gen("C14_CondExpand", text)
+    return True
 
 
 def regen(ctx, repo=None):
